@@ -6,7 +6,7 @@ from typing import List, Optional
 
 from .. import norm
 from ..model import own_nodes, stmt_text, parent, AnalysisError
-from ..util import cfg_of, calls_named, single_defs
+from ..util import attr_writes, cfg_of, calls_named, single_defs
 from .common import *
 from . import sched
 
@@ -205,6 +205,20 @@ def run(ctx):
             d += f"; in `{stmt_text(lp)}` under {rv}.failed(): {failed}; key is the result's pipeline id: {keyok} ({key}); every failed result counted: {skip is None}"
     ctx.ob(3, "K3", "the failure count of a pipeline is incremented exactly once per failed container result", okinc and not writes_elsewhere, us,
            incs[0] if incs else us.node, construct="pipeline_failures[...] += 1 per failed result", detail=d + (f"; other writers: {[h.qual for h, _ in writes_elsewhere]}" if writes_elsewhere else ""))
+    # the count is a running total over the whole run: in the whole package the field is written only where it is created
+    # (scheduler init) and by the counted `+= 1`; no reset, pop, clear, decrement or overwrite anywhere (also through a local alias)
+    other = []
+    for w in attr_writes(P, "pipeline_failures"):
+        if incs and (w.node is incs[0] or getattr(w.node, "_orig", None) is incs[0] or getattr(incs[0], "_orig", None) is w.node
+                     or (w.fn.name == us.name and w.how == "item-augassign" and stmt_text(w.node) == stmt_text(incs[0]))):
+            continue
+        if w.how == "assign" and w.fn.name.endswith("_init"):
+            continue
+        other.append(w)
+    ctx.ob(3, "K1", "the failure count of a pipeline is a total over the whole run: the field is written only where the scheduler is initialised and by "
+           "the one counted increment (never reset, popped, cleared, decremented or overwritten)", not other, other[0].fn if other else us,
+           other[0].node if other else (incs[0] if incs else us.node), construct="writers of pipeline_failures",
+           detail="other writers: " + (", ".join(repr(w) for w in other) if other else "none"))
     # (4) queueing
     q = f"{s_p}.op_queue"
     apps = [c for c in calls_named(us, "append") if isinstance(c.func, ast.Attribute) and norm.U(c.func.value) == q]
